@@ -14,7 +14,7 @@ def schedules(ctx, g, ninst, maxrevive):
     res = ctx.mc("MC_Interleave", cfg(spec="ISpec", constants=c, invariants=["Emit", "Isolated", "ExchangesAgree", "AtMostOneKey",
                                                                               "AtMostOneMsg", "EntropyOnlyInStart"],
                                       properties=["SharedUnchanged"]),
-                 label="MC_Interleave[%s,%d instances,revives<=%d: every interleaving]" % (g, ninst, maxrevive))
+                 label="MC_Interleave[%s,%d instances,revives<=%d: every interleaving]" % (g, ninst, maxrevive), workers=1)
     scheds = []
     for m in re.finditer(r'^"SCHED (.*)"$', res["out"], re.M):
         scheds.append([(int(k), c) for k, c in json.loads(json.loads('"' + m.group(1) + '"'))])
